@@ -200,6 +200,11 @@ def collisionProne (q : GroupReq) (rows : List Row) : Bool :=
     | some v => collidingValue q.nilLo v
     | none => false
 
+/-- a value condition on an unsigned field: `evalBinaryExpr` has no `case uint64`, the
+    condition is false for every point (known finding `unsigned-value-predicate`) -/
+def unsignedCond (r : Row) : Bool :=
+  r.cond.isSome && r.shards.any fun s => s.hasCursor && s.typ == .u
+
 structure OState where
   rows : List Row := []
   v : Verdict := Verdict.pass false
@@ -220,7 +225,10 @@ def oracle1 (st : OState) (toks : List String) (ans : String) : OState :=
     let tags := ["filter"] ++ (if multi then ["multi-shard"] else []) ++
       (if st.rows.any (·.cond.isSome) then ["value-cond"] else [])
     let nt : Bool := !st.rows.isEmpty
-    let why : String := "filter-read-differs:start=" ++ toString a ++ "_stop=" ++ toString b ++ "_rows=" ++
+    let known : Bool := !ok && (match obs with
+      | some o => Spec.C21.holdsFilterX unsignedCond a b st.rows o
+      | none => false)
+    let why : String := (if known then "unsigned-value-predicate" else "filter-read-differs") ++ ":start=" ++ toString a ++ "_stop=" ++ toString b ++ "_rows=" ++
       toString st.rows.length ++ "_got=" ++ (String.ofList (ans.toList.take 80)).replace " " "_"
     let vd : Verdict := { ok := ok, nontrivial := nt, tags := tags, reason := if ok then "" else why }
     { st with v := st.v.and vd }
@@ -234,7 +242,11 @@ def oracle1 (st : OState) (toks : List String) (ans : String) : OState :=
       (if q.allTime then ["all-time"] else []) ++
       (if (obs.getD []).length > 1 then ["groups>1"] else [])
     let nt : Bool := !st.rows.isEmpty
-    let sig : String := if collisionProne q st.rows then "group-sortkey-collision" else "group-read-differs"
+    let knownU : Bool := !ok && (match obs with
+      | some o => Spec.C21.holdsGroupX unsignedCond q st.rows o
+      | none => false)
+    let sig : String := if knownU then "unsigned-value-predicate"
+      else if collisionProne q st.rows then "group-sortkey-collision" else "group-read-differs"
     let why : String := sig ++ ":by=" ++ boolStr q.by_ ++ "_keys=" ++ joinComma q.keys ++ "_nilLo=" ++
       boolStr q.nilLo ++ "_start=" ++ toString q.start ++ "_stop=" ++ toString q.stop ++ "_got=" ++
       (String.ofList (ans.toList.take 80)).replace " " "_"
